@@ -4,6 +4,7 @@ b'\x05\x00' (SOCKS5, zero auth methods) sets _bytes_needed = 0; _recv_socks5_aut
 leaves _recv_handler / _bytes_needed as they are, so `while self._recv_handler:` re-enters the same handler without
 consuming anything: AssertionError ('assert self._transport is not None') escapes data_received to the event loop;
 under `python -O` (asserts stripped) the loop never ends (run this file with -O and a timeout to see it).
+FIXED in /repo by ed2e8cb (SSHSOCKSForwarder.close() disarms the handler).
 Proposed patch: set self._recv_handler = None in SSHSOCKSForwarder.close() (override), or after each self.close().
 """
 import asyncio, asyncssh
